@@ -161,13 +161,14 @@ def check_as_ast(ctx, vals):
                     ctx.corr_disagreements += 1
                     ctx.fail("no-failing-input-found", "correspondence py_repr (Model/Literal.v) vs CPython repr/str on %s" % _vrepr(v)[:80],
                              _witness("repr", v, model=m_repr[i]))
+            if L.passthrough_ok(v) and L.depth(v) <= 200:      # the bracket limit is modelled in as_ast, not in the parser
                 ctx.corr_cases += 1
                 want = _py_parse(texts[i])
                 if L.canon_floats(m_parse[i]) != want:
                     ctx.corr_disagreements += 1
                     ctx.fail("no-failing-input-found", "correspondence parse_literal (Model/Literal.v) vs ast.parse on the text %r"
                              % texts[i][:80], _witness("parse", v, model=m_parse[i][:300], cpython=want[:300]))
-            else:
+            if not L.passthrough_ok(v):
                 ctx.count("assumption", "str with a non-printable non-ASCII code point: only the composite as_ast compared")
 
 
